@@ -47,6 +47,21 @@ fn gen_c15(o: &mut Out, tier: &str, seed: u64) {
             o.op("acct.rand", &format!("ix acct {} {} {} - -", vi, hex(&r.bytes(32)), off));
         }
         o.op("close", &format!("ix close {} {} {}", hex(&r.bytes(32)), hex(&r.bytes(32)), hex(&r.bytes(32))));
+        // coinciding addresses: every account keeps its own slot and flags (rent returned to the authority itself, …)
+        let (x, y) = (r.bytes(32), r.bytes(32));
+        let z = vec![0u8; 32];
+        for (a, b, c) in [(&x, &x, &y), (&x, &y, &y), (&x, &y, &x), (&x, &x, &x), (&z, &z, &z), (&x, &z, &z)] {
+            o.op("close.same-address", &format!("ix close {} {} {}", hex(a), hex(b), hex(c)));
+        }
+        for vi in [0usize, 5, 12] {
+            let (pti, dsz, _) = PT_SIZES[vi % PT_SIZES.len()];
+            let data = r.bytes(dsz);
+            o.op("verify.ctx.same-address", &format!("ix verify {} {} {} {} {}", vi, pti, hex(&data), hex(&x), hex(&x)));
+            o.op("acct.ctx.same-address", &format!("ix acct {} {} {} {} {}", vi, hex(&x), 7, hex(&x), hex(&x)));
+            o.op("acct.ctx.same-address", &format!("ix acct {} {} {} {} {}", vi, hex(&x), 7, hex(&x), hex(&y)));
+            o.op("acct.ctx.same-address", &format!("ix acct {} {} {} {} {}", vi, hex(&x), 7, hex(&y), hex(&x)));
+            o.op("acct.ctx.same-address", &format!("ix acct {} {} {} {} {}", vi, hex(&x), 7, hex(&y), hex(&y)));
+        }
     }
     // decoders on arbitrary data: every first byte, lengths around each nominal size
     for b in 0..=255u32 {
